@@ -175,7 +175,7 @@ ADAPTER_TRUSTED = [
 ]
 PROPS["C15"] = {
     "extract": [],
-    "rule": "cases = ALL histories up to length 4 (5 in thorough) over {read 1/2/3, skip 0/1/2/3, stream_position, stream_len} on an 8-byte stream (cut at the first operation leaving the stream) x capacities 1..9 x the buffered adapters (std BufReader over Cursor / over SeekSkipAdapter, &mut, Box, BufReader over Box over BufReader, futures BufReader, Pin<Box>, futures BufReader over futures BufReader) and the unbuffered ones (Cursor, SeekSkipAdapter, futures Cursor, SeekSkipAdapter over futures Cursor); long random histories (up to 40 ops, reads up to 2 x capacity, skips 0 / < buffered / = / > buffered) on streams of 1..300 bytes over all 13 adapters incl. a real File, capacities 1..64, 32, 8 and 8192; sparse streams of 2^40..2^64-1 bytes with skip amounts i64::MAX-1, i64::MAX, i64::MAX+1, 2^62, 2^63+6. non-trivial = histories with at least two operations (tags n2..n9); distinct = distinct (adapter, capacity, stream, history)",
+    "rule": "cases = ALL histories up to length 4 (5 in thorough) over {read 1/2/3, skip 0/1/2/3, stream_position, stream_len} on an 8-byte stream (cut at the first operation leaving the stream) x capacities 1..9 x the buffered adapters (std BufReader over Cursor / over SeekSkipAdapter, &mut, Box, BufReader over Box over BufReader, futures BufReader, Pin<Box>, futures BufReader over futures BufReader) and the unbuffered ones (Cursor, SeekSkipAdapter, futures Cursor, SeekSkipAdapter over futures Cursor) and two buffered async adapters whose inner native AsyncSkip reader returns Pending once / twice at every poll (driven by a polling loop); long random histories (up to 40 ops, reads up to 2 x capacity, skips 0 / < buffered / = / > buffered) on streams of 1..300 bytes over all 13 adapters incl. a real File, capacities 1..64, 32, 8 and 8192; sparse streams of 2^40..2^64-1 bytes with skip amounts i64::MAX-1, i64::MAX, i64::MAX+1, 2^62, 2^63+6. non-trivial = histories with at least two operations (tags n2..n9); distinct = distinct (adapter, capacity, stream, history)",
     "trivial_if_any": ["n0", "n1"],
     "shards": {"quick": 8, "thorough": 16},
     "exhaustive": {"quick": True, "thorough": True},
@@ -194,7 +194,7 @@ PROPS["C11"] = {
 
 PROPS["C14"] = {
     "extract": [],
-    "rule": "cases = one input run under a lattice of configurations. limit: 200 (2000) files with one or two moov boxes in four layouts (a sixth bit-flipped, a sixth truncated, a sixth with a trailing box) under max_metadata_size in {0, 1, m-1, m, m+1 for each moov payload size m, 2^30, u64::MAX}: every result must be InvalidInput or equal to the result at the top limit, rejections are downward closed in the limit, and each result equals the model's. cum: 200 (2000) files with an until-EOF mdat in three positions, a sized mdat, or an until-EOF non-mdat, under cumulative_mdat_box_size in {none, 0,1,2,7,8,9, exact-1, exact, exact+1, exact+40, 100000, u32::MAX}: the result with the option set must equal the result of the input whose mdat size field is rewritten to that value with the option unset, must equal the unset result when there is no until-EOF mdat, and equals the model's. unknown: 600 (6000) chunk sequences (simple / extended / animated, unknown chunks trailing, inside ANMF, and mid-sequence; known chunks out of place) with allow_unknown_chunks off and on: off-result is UnsupportedChunk or equals on-result; both equal the model's. non-trivial = cases where the option changes the result (tags limit-bites / option-bites) or the input is accepted; distinct = distinct inputs",
+    "rule": "cases = one input run under a lattice of configurations. limit: 200 (2000) files with one or two moov boxes in six layouts (incl. skippable boxes before the media, so that padding vs displacement is decided) (a sixth bit-flipped, a sixth truncated, a sixth with a trailing box) under max_metadata_size in {0, 1, m-1, m, m+1 for each moov payload size m, 2^30, u64::MAX}: every result must be InvalidInput or equal to the result at the top limit, rejections are downward closed in the limit, and each result equals the model's. cum: 200 (2000) files with an until-EOF mdat in three positions, a sized mdat, or an until-EOF non-mdat, under cumulative_mdat_box_size in {none, 0,1,2,7,8,9, exact-1, exact, exact+1, exact+40, 100000, u32::MAX}: the result with the option set must equal the result of the input whose mdat size field is rewritten to that value with the option unset, must equal the unset result when there is no until-EOF mdat, and equals the model's. unknown: 600 (6000) chunk sequences (simple / extended / animated, unknown chunks trailing, inside ANMF, and mid-sequence; each of the nine known chunk names out of place at file level and after the frame data inside ANMF) with allow_unknown_chunks off and on: off-result is UnsupportedChunk or equals on-result; both equal the model's. non-trivial = cases where the option changes the result (tags limit-bites / option-bites) or the input is accepted; distinct = distinct inputs",
     "trivial_tags": ["limit", "cum", "unknown", "limit-irrelevant", "option-inert", "rejected", "no-eof-mdat", "eof-mdat"],
     "shards": {"quick": 4, "thorough": 16},
     "trusted_base": MP4_TRUSTED + ["the WebP container model (MediaSan/Webp/Sanitize.lean), validated per case", "the builder setters (ConfigBuilder) are exercised by the harness, not modelled: the model takes the configuration record"],
